@@ -524,6 +524,16 @@ def masked_items():
             out.append((f"masked:{zname}*{aname}", node, {"a": sv, "b": 1.5}, {"a": 3.0, "b": 3.0}))
             node2 = ["bin", "+", ["bin", "*", atom, zero], ["bin", "*", a, b_]]
             out.append((f"masked:{aname}*{zname}", node2, {"a": sv, "b": 1.5}, {"a": 1.5, "b": sv}))
+    # a power that is constant, (x ** 0).sum() / x[0] ** 0, next to regular terms in the same variable, at x = 0: the derivative of the
+    # constant is 0 (not 0 * x ** -1), the entry is the regular term's derivative
+    x = ["vec", "x"]
+    O4 = {f"x[{i}]": 0.0 for i in range(4)}
+    sq = ["bin", "**", ["bin", "+", a, ["el", x, 0]], ["raw", 2, "int"]]
+    for wname, const_pow in (("sum(x^0)", ["sum", ["vpow", x, 0]]), ("sum(x[0:2]^0)", ["sum", ["vpow", ["slice", x, 0, 2, None], 0]]), ("x0^0", ["bin", "**", ["el", x, 0], ["raw", 0, "int"]]),
+                             ("sum(x^0.0)", ["sum", ["vpow", x, 0.0]])):
+        out.append((f"masked:minus {wname}", ["bin", "-", sq, const_pow], {"a": 1.5, **O4}, {"a": 3.0, "x[0]": 3.0}))
+        out.append((f"masked:times {wname}", ["bin", "*", sq, const_pow], {"a": 1.5, **O4}, {"a": 3.0 * (4.0 if wname in ("sum(x^0)", "sum(x^0.0)") else 2.0 if "0:2" in wname else 1.0),
+                                                                                              "x[0]": 3.0 * (4.0 if wname in ("sum(x^0)", "sum(x^0.0)") else 2.0 if "0:2" in wname else 1.0)}))
     return out
 
 
@@ -533,6 +543,8 @@ def run_masked(rec, rng, cell, node, pt, partials, k):
 
     rec.case({"masked": cell, "k": k}, nontrivial=True)
     V = ["a", "b"] if k % 2 == 0 else ["b", "zz", "a"]
+    if any(nm.startswith("x[") for nm in pt):
+        V = ["a", "x[0]", "x[1]", "x[2]", "x[3]"] if k % 2 == 0 else ["x[3]", "x[1]", "zz", "a", "x[0]", "x[2]"]
     point = {"zz": 0.3, **pt}
     show = {"expr": A.render(node), "V": V, "point": {nm: point[nm] for nm in V}}
     try:
